@@ -292,6 +292,16 @@ func load(dir string, ver int) *pkgInfo {
 						p.tainted = "the package calls " + id.Name + " on the identifier " + a.Name
 					}
 				}
+				// a table handed to any function (maps.Copy, a helper that fills it, ...) may be written there
+				if id, ok := x.Fun.(*ast.Ident); !ok || id.Name != "len" {
+					for _, a := range x.Args {
+						if aid, ok := a.(*ast.Ident); ok {
+							if _, isTable := p.maps[aid.Name]; isTable {
+								p.tainted = "the package passes the table " + aid.Name + " to a function"
+							}
+						}
+					}
+				}
 			}
 			return true
 		})
